@@ -21,3 +21,21 @@ Definition check_negate (c : idtable * prop * prop) : bool :=
 
 Definition check_eval (c : prop * list (ident * Z) * Z) : bool :=
   let '(m, e, x) := c in eval (lookup_env e) m =? x.
+
+(* --- assume / evaluate_propositions / evaluate / flags --- *)
+Definition bnd_eqb (a b : Z * Z) : bool := (fst a =? fst b) && (snd a =? snd b).
+(* Python dict built from the model's (id, bounds) list: the last entry of a key wins *)
+Definition dict_agrees (model obs : list (ident * (Z * Z))) : bool :=
+  forallb (fun kv => opt_eqb bnd_eqb (alookup_last (fst kv) model) (Some (snd kv))) obs
+  && forallb (fun kv => match alookup (fst kv) obs with Some _ => true | None => false end) model.
+
+Definition check_assume (c : interp * prop * prop) : bool :=
+  let '(d, inp, obs) := c in prop_eqb (assume d inp) obs.
+Definition check_evalprops (c : interp * prop * list (ident * (Z * Z)) * (Z * Z)) : bool :=
+  let '(d, inp, obs, top) := c in
+  dict_agrees (evaluate_propositions d inp) obs && opt_eqb bnd_eqb (evaluate d inp) (Some top).
+Definition check_flags (c : prop * bool * bool * (Z * Z)) : bool :=
+  let '(inp, t, f, eb) := c in
+  Bool.eqb (is_tautology inp) t && Bool.eqb (is_contradiction inp) f && bnd_eqb (equation_bounds inp) eb.
+Definition check_reduce (c : prop * prop) : bool :=
+  let '(inp, obs) := c in prop_eqb (reduce inp) obs.
